@@ -10,7 +10,7 @@ reused when one side has length 1); m != n, both > 1, must raise ValueError.
 """
 import itertools, math, operator
 import numpy as np
-from mc import ref
+from mc import ref, hist
 from mc.core import call, HarnessError
 
 PROP = 'C09'
@@ -347,7 +347,7 @@ def accessors(cname):
 def unary(ctx, cname):
     for (an, f), M in itertools.product(accessors(cname), range(1, 6)):
         cid = 'C09/%s/acc/%s/M=%d' % (cname, an, M)
-        if not ctx.want(cid):
+        if not (ctx.want(cid) or (ctx.only and ctx.only.startswith(cid + '/hist='))):
             continue
         ks = [2 + j for j in range(M)]
         site = '%s.%s' % (cname, an.split('/')[0])
@@ -370,6 +370,18 @@ def unary(ctx, cname):
             continue
         singles = [f(build(cname, [kk])) for kk in ks]
         compare(ctx, cid, site, P, res, singles, M)
+        # the same object reached through a history during which the accessor had already been used (item assignment over a
+        # decoy, reverse of a reversed copy, append + pop): the M results are those of the values it holds NOW
+        for tag, X in hist.variants(build(cname, ks), f, fresh=False):
+            cidh = cid + '/hist=' + tag
+            if not ctx.want(cidh):
+                continue
+            ctx.case(cidh, key=cidh)
+            okh, resh = call(f, X)
+            if not okh:
+                ctx.fail(cidh, site, 'raises:' + type(resh).__name__, dict(P, hist=tag), '%s after %s raised %r' % (an, tag, resh))
+            else:
+                compare(ctx, cidh, site, dict(P, hist=tag), resh, singles, M)
     # interpolation over a vector of s (one pose, several s) and of several poses at one s
     svec_all = [0.0, 0.25, 0.5, 0.8, 1.0]
     if cname in ('SO2', 'SE2', 'SO3', 'SE3'):
@@ -470,7 +482,7 @@ def extras(cname):
 def unary_extra(ctx, cname):
     for (an, f), M in itertools.product(extras(cname), range(1, 6)):
         cid = 'C09/%s/extra/%s/M=%d' % (cname, an, M)
-        if not ctx.want(cid):
+        if not (ctx.want(cid) or (ctx.only and ctx.only.startswith(cid + '/hist='))):
             continue
         ks = [2 + j for j in range(M)]
         site = '%s.%s' % (cname, an.split('/')[0])
@@ -489,6 +501,16 @@ def unary_extra(ctx, cname):
         if not oks:
             raise HarnessError('single-valued %s failed: %r' % (cid, singles))
         compare(ctx, cid, site, P, res, singles, M)
+        for tag, X in hist.variants(build(cname, ks), f, fresh=False):
+            cidh = cid + '/hist=' + tag
+            if not ctx.want(cidh):
+                continue
+            ctx.case(cidh, key=cidh)
+            okh, resh = call(f, X)
+            if okh:
+                compare(ctx, cidh, site, dict(P, hist=tag), resh, singles, M)
+            else:
+                ctx.fail(cidh, site, 'raises:' + type(resh).__name__, dict(P, hist=tag), '%s works on a fresh object but raised %r after %s' % (an, resh, tag))
 
 
 def shards(tier, seed):
